@@ -17,6 +17,7 @@ def declare(reg):
     reg.classdef("Connection", {"g_c_ver": "int", "g_c_schema": "int", "g_p_ver": "int", "g_p_schema": "int", "g_in_txn": "bool", "g_has_versions": "bool"})
     reg.classdef("Queue", {"g_items": "list[ref:IMAPClientCommand]"})
     reg.classdef("Event", {"g_set": "bool"})
+    reg.classdef("ReMatch", {})
     reg.classdef("PWUser", {"username": "str", "pw_hash": "str", "maildir": "opaque:Path"}, path="asimap/auth.py")
     reg.classdef(
         "PreAuthenticated",
